@@ -91,6 +91,9 @@ fn history_case(uni: &UniCfg, sc: usize, script: Vec<crate::sup::Dec>) -> Case {
 }
 
 fn run_history(u: &mut Universe, b: &Batch, sc: u64, st: &mut Stats) -> bool {
+    // (run twice: the very first execution in a universe may contain one-time initialisation that
+    // later executions do not repeat; placements are derived from the second)
+    let _ = run_case(u, &history_case(&b.uni, sc as usize, vec![]), &mut crate::sup::NoHooks, false);
     let out0 = run_case(u, &history_case(&b.uni, sc as usize, vec![]), &mut crate::sup::NoHooks, false);
     if let Some(e) = &out0.harness_error {
         st.harness_errors.push(format!("history {sc}: {e}"));
@@ -114,6 +117,12 @@ fn run_history(u: &mut Universe, b: &Batch, sc: u64, st: &mut Stats) -> bool {
             out2.records.retain(|r| r.idx == 2 || matches!(r.outcome, Outcome::Panic(_)));
             if out2.records.iter().all(|r| r.idx != 2) {
                 continue; // the constructor or the first lookup did not return normally (C10's subject)
+            }
+            // the second lookup is judged as a *fault-free* lookup: if the placement drifted into it
+            // (the first lookup turned out shorter than in the reference trace) there is nothing to judge
+            if out2.records.iter().any(|r| r.idx == 2 && r.faults_inside > 0) {
+                st.count("history.placement_drifted_into_second_lookup", 1);
+                continue;
             }
             let mut seen = std::collections::BTreeSet::new();
             for (clause, detail) in judge(&case, &out2) {
